@@ -7,7 +7,7 @@ use soroban_sdk::model::{self, any};
 use soroban_sdk::{Bytes, BytesN, Env, String};
 
 // ------------------------------------------------------------------ layer 1: kernels
-// HARNESS props=C10 tier=quick profile=abi_k mode=strict shape="to_i128 over all 2^256 values"
+// HARNESS props=C10,C04,C05 tier=quick profile=abi_k mode=strict shape="to_i128 over all 2^256 values"
 #[kani::proof]
 #[kani::unwind(40)]
 fn c10_to_i128() {
@@ -18,6 +18,8 @@ fn c10_to_i128() {
     match r {
         Ok(x) => {
             kani::assert(fits, "VERIF:C10:amounts above 2^127-1 are rejected");
+            kani::assert(fits, "VERIF:C04:an inbound amount of 2^127 or more is rejected");
+            kani::assert(x >= 0 && (x as u128) == ((limbs[1] as u128) << 64 | limbs[0] as u128), "VERIF:C05:the amount credited inbound is exactly the announced 256-bit amount");
             kani::assert(x >= 0 && (x as u128) == ((limbs[1] as u128) << 64 | limbs[0] as u128), "VERIF:C10:an accepted amount is converted exactly");
             kani::cover!(x == i128::MAX, "VERIF:reach:largest amount");
         }
@@ -179,7 +181,7 @@ fn c10_roundtrip_transfer_1_1_0() {
     c10_roundtrip_transfer(1, 1, 0)
 }
 
-// HARNESS props=C10 tier=quick profile=abi_k shape="get_message_type over all 2^256 first words, and every length below 32"
+// HARNESS props=C10,C04 tier=quick profile=abi_k shape="get_message_type over all 2^256 first words, and every length below 32"
 #[kani::proof]
 #[kani::unwind(70)]
 fn c10_get_message_type() {
@@ -217,6 +219,7 @@ fn c10_get_message_type() {
                 _ => 255,
             };
             kani::assert(want == w[31], "VERIF:C10:the message type is read from the first word exactly");
+            kani::assert(canonical && want == w[31], "VERIF:C04:the outer message type is read exactly from the payload's first word (only canonical tags)");
             kani::cover!(w[31] == 4, "VERIF:reach:receive-from-hub tag");
         }
         Err(e) => {
